@@ -2,7 +2,7 @@
 from . import shared as S
 
 META = {
-    'claim_added': 'Also decided: Dumper.__init__ forwards the stream and every emitter option unchanged (only sort_keys is replaced) and does not inspect the sink; a source is never re-bound to a transformed copy in one branch only. Round 3: Loader.__init__ hands its arguments to SafeLoader.__init__ unchanged and unconditionally, and nothing on the load side reads a source name (R12.7).',
+    'claim_added': 'Also decided: Dumper.__init__ forwards the stream and every emitter option unchanged (only sort_keys is replaced) and does not inspect the sink; a source is never re-bound to a transformed copy in one branch only. Round 3: Loader.__init__ hands its arguments to SafeLoader.__init__ unchanged and unconditionally, and nothing on the load side reads a source name (R12.7). Round 6 (E14): caches on the code this property is about are invisible - no value that lives in a memo cell (dict / lazily filled attribute / lru_cache) is modified by the code it is handed to, the key of a cell contains every input its value depends on, no mutable parameter default is modified or handed out; given that, the program is analysed as if every lookup missed.',
     'level': 'other',
     'technique': 'static: sibling-site agreement - every yaml.dump/yaml.load call site of one factory compared after '
                  'normalisation (resolved Dumper class, keyword set, option expressions), factory configurations compared, '
